@@ -56,7 +56,8 @@ REQUIRED = ["io_roundtrips", "io_tiff", "io_npy", "io_nrrd", "io_uint_to_float",
             "voxels_lit", "raster_anisotropic", "raster_generic_resolution", "raster_far_positions",
             "raster_saved_and_read", "raster_explicit_ranges", "raster_thin_tiles",
             "raster_whole_brain_coordinates",
-            "rasters_after_inplace_edit", "rasters_of_derived_trees",
+            "rasters_after_inplace_edit", "rasters_of_derived_trees", "io_non_contiguous_input",
+            "transformer_reused", "rejected_calls_before_raster",
             "tap_get_samplers"]
 FLOOR = {"quick": 450, "thorough": 9000}
 SHARDS = {"quick": 8, "thorough": 16}
@@ -103,6 +104,18 @@ def check_io(ctx, case, tmp):
     fmt = case["fmt"]
     f = os.path.join(tmp, "stack" + {"tiff": ".tif", "tiff2": ".tiff", "npy": ".npy",
                                      "nrrd": ".nrrd"}[fmt])
+    lay = case.get("layout", "C")
+    if lay == "F":
+        a = np.asfortranarray(a)
+    elif lay == "T":  # a transposed view of a volume stored in another axis order
+        a = np.ascontiguousarray(a.transpose(tuple(range(a.ndim))[::-1])).transpose(
+            tuple(range(a.ndim))[::-1])
+    elif lay == "S":  # every other plane of a larger block
+        big = np.zeros((a.shape[0] * 2,) + a.shape[1:], dtype=a.dtype)
+        big[::2] = a
+        a = big[::2]
+    if lay != "C":
+        ctx.count("io_non_contiguous_input")
     keep = a.copy()
     stored = a4
     if fmt.startswith("tiff"):
@@ -166,7 +179,10 @@ def check_io(ctx, case, tmp):
     if fmt.startswith("tiff") and case["seed"] % 3 == 0:
         # an image stack object (not an array) can be saved as well: same content again
         f2 = os.path.join(tmp, "again.tif")
-        save_tiff(st, f2)
+        if case["seed"] % 2 and want_dtype == "float32":
+            save_tiff(st, f2, dtype=np.float32)  # (the same dtype spelled out: nothing to rescale)
+        else:
+            save_tiff(st, f2)
         b2 = np.asarray(read_imgs(f2, **kw).get_full())
         ctx.count("io_stack_object_resaved")
         if b2.shape != b.shape or not np.allclose(b2.astype(np.float64), b.astype(np.float64),
@@ -243,6 +259,24 @@ def check_raster(ctx, case, tmp):
         res_arg = int(res_arg) if form == "tuple" else np.float32(res_arg)
     ctx.count("resolution_form_" + (form if not case.get("scalar_res") else "scalar"))
     tf = ToImageStack(res_arg)
+    if case["seed"] % 3 == 0:
+        # the transformer object was in use before: it rasterised another tree, and then the
+        # caller asked for this tree with malformed ranges (rejected) before getting it right
+        from swcgeom.core import Tree as _T
+
+        other = _T(3, pid=np.array([-1, 0, 1], dtype=np.int32),
+                   x=np.array([0, 4, 8], dtype=np.float32) + 500.0,
+                   r=np.array([1, 1.5, 1], dtype=np.float32))
+        try:
+            tf(other)
+            ctx.count("transformer_reused")
+            try:
+                list(tf.transform(tree, verbose=False, ranges=([0, 0, 0],)))
+            except Exception:
+                ctx.count("rejected_calls_before_raster")
+        except BaseException as e:
+            if isinstance(e, (KeyboardInterrupt, SystemExit)):
+                raise
     if _raster_pass(ctx, case, tmp, tree, pid, tf, res_arg, "") is not True:
         return
     if case.get("edit") and case["ranges"] == "auto":
@@ -477,6 +511,7 @@ def run(ctx):
                 case["save_dtype"] = [None, None, "uint8", "uint16", "float32"][
                     int(rng.integers(0, 5))]
                 case["compression"] = [None, False][int(rng.integers(0, 2))]
+            case["layout"] = str(rng.choice(["C", "C", "F", "T", "S"]))
             ctx.case(case, nontrivial=int(np.prod(shape)) >= 2, klass=f"io/{fmt}")
             execute(ctx, case)
         for k in range(ctx.scale(150, 3000)):
